@@ -2,11 +2,12 @@
    the code: two refutations (a third defect was repaired, see below), each a history that was executed on
    the real implementation (corpus/F_C17_*.jsonl), shrunk there, and is replayed
    here through the model.  What does hold is stated leg by leg. *)
-From Coq Require Import ZArith List Bool.
-From Alliance Require Import Num KMap Types Monad Model Step Spec Hoare WitnessLib.
+From Coq Require Import ZArith List Bool Lia.
+From Alliance Require Import Num KMap KMapSorted Types Monad Model Step Spec Hoare WitnessLib.
 From Alliance.Witness Require Import F_C17_interval_zero F_C17_decay_overflow F_C17_div_zero.
 From Alliance.Proofs Require Import Totality ParamsInv.
 From Alliance.Proofs Require Import FailureModes.
+From Alliance.Proofs Require TokensNonneg CustodyClosed PayoutTotal PayoutReachable.
 Import ListNotations.
 Open Scope Z_scope.
 
@@ -74,3 +75,51 @@ Print Assumptions C17_decay_without_schedule_partial.
 Theorem C17_failure_modes : raises (fun e => In e end_block_codes) end_blocker.
 Proof. exact end_block_failure_modes. Qed.
 Print Assumptions C17_failure_modes.
+
+(* The payout leg (F-C03-2, FIXED in /repo by 714c18a "fix: undelegating more than the asset holds is refused"):
+   before the fix the last holder of an asset could queue an unbonding entry of one unit more than custody
+   holds, and at its maturity CompleteUnbondings failed "insufficient funds" — the end-of-block returned an
+   error (observed on the real application).  Now, for EVERY admissible history and whatever the time of the
+   next block, completing the matured redelegations and paying the matured unbondings returns normally:
+   custody covers the pending balances (C01) because no staked total is negative (C03), pending balances are
+   never negative and the payout sends exactly them.  Assumed of the history: C01's environment conditions,
+   no slash callback returned an ERROR, genesis assets valid, no undelegation message names the staking denom. *)
+Theorem C17_payout_never_fails : forall h t ht, PayoutReachable.history_ok h ->
+  let s := fst (step (run init_state h) (OBeginBlock t ht)) in
+  exists s', (complete_redelegations ;;; complete_unbondings) s = Ok tt s'.
+Proof. exact PayoutReachable.payout_never_fails. Qed.
+Print Assumptions C17_payout_never_fails.
+
+(* the state-level half, any state: non-negative pending balances covered by custody are paid *)
+Theorem C17_covered_payout_returns : forall s, ksorted (bank s) -> PayoutTotal.EN PayoutTotal.notbond s -> PayoutTotal.Cover s ->
+  exists s', complete_unbondings s = Ok tt s'.
+Proof.
+  intros s H1 H2 H3. pose proof (PayoutTotal.complete_unbondings_total s (conj H1 (conj H2 H3))) as H.
+  destruct (complete_unbondings s) as [[] s'|e s'|e s']; [eexists; reflexivity | contradiction | contradiction].
+Qed.
+Print Assumptions C17_covered_payout_returns.
+
+(* pending balances are never negative: every history, no hypothesis *)
+Theorem C17_pending_balances_never_negative : forall h ct del l u,
+  kget (undelq (run init_state h)) [ct; del] = Some l -> In u l -> 0 <= u_amount u.
+Proof. exact PayoutTotal.pending_balances_never_negative. Qed.
+Print Assumptions C17_pending_balances_never_negative.
+
+(* non-vacuity: the history of C01's example (delegate, undelegate, slash while unbonding, take rate, payout)
+   is admissible in the sense above, for every denom *)
+Definition C17_example : list Op :=
+  [EStaking [(10, mkSVal 3 1000000 (1000000 * ONE))] []; EUnbondingTime 100; EParams 0 50 ZERO_TIME;
+   EGenesisAsset (mkAsset 1 ONE 0 (5 * ONE) (ONE / 2) 0 0 0 ONE 0 0 true); EBank [(100, 1, 1000)] [];
+   OBeginBlock 10 1; ODelegate 100 10 1 500; OUndelegate 100 10 1 200; OEndBlock;
+   OBeginBlock 70 2; OHookSlash 10 (ONE / 10); OEndBlock].
+Example C17_payout_nonvacuous : PayoutReachable.history_ok C17_example /\
+  unbonding_sum (run init_state C17_example) 1 = 180 /\
+  snd (step (fst (step (run init_state C17_example) (OBeginBlock 130 3))) OEndBlock) = R_OK.
+Proof.
+  split; [|split; vm_compute; reflexivity].
+  split.
+  - intros d Hd. unfold C17_example. cbn [CustodyClosed.adm0_run]. repeat split; cbv [CustodyClosed.adm0 Custody.adm]; try exact I;
+      try (unfold ACC_ALLIANCE; lia); try (vm_compute; discriminate); try (vm_compute; intro; discriminate); try constructor;
+      try (vm_compute; congruence). all: rewrite !Custody.sl_is_slack; unfold slack, custody, owed, staked_total, unbonding_sum, all_undels, bal; cbn. all: destruct (d ?= 1); cbn; try lia.
+  - unfold C17_example. repeat constructor; vm_compute; discriminate.
+Qed.
